@@ -1,11 +1,19 @@
 (* Props/C12.v - Input-file layout is irrelevant.
-   Only statements; every proof is [exact <lemma>] from Proofs/.  The model (Model/Tokenizer.v) is
-   GeoPHIRESUtils.read_input_file over strings of code points 0..255: text-mode newline decoding, readlines,
-   strip, comment prefixes, split(','), ParameterEntry, and Python's insertion-ordered dict. *)
-From Coq Require Import String Ascii List Bool Permutation.
-From Verif Require Import Model.Tokenizer Proofs.TokenizerProofs Gen.InputParamUses Proofs.TokenizerUses.
+   Only statements; every proof is [exact <lemma>] from Proofs/.  The model (Model/UTokenizer.v) is
+   GeoPHIRESUtils.read_input_file over texts of Unicode code points ([string] = list N, [String] = cons, $"abc" = the text
+   of an ASCII literal): text-mode newline decoding, readlines, strip with the full str.isspace() table, comment
+   prefixes, split(','), ParameterEntry, and Python's insertion-ordered dict; Model/Utf8.v is the UTF-8 decoding of the
+   file's bytes (errors included). *)
+From Coq Require Import String NArith List Bool Permutation.
+From Verif Require Import Base.UStr Model.UTokenizer Model.Utf8 Proofs.UTokenizerProofs Proofs.Utf8Proofs Gen.InputParamUses Proofs.TokenizerUses.
 Import ListNotations.
-Open Scope string_scope.
+Close Scope string_scope.   (* opened by the generated table *)
+Open Scope list_scope.
+Open Scope N_scope.
+
+Notation string := ustring (only parsing).
+Notation String := cons (only parsing).
+Notation "$ s" := (us s%string) (at level 0, s at level 0, only parsing).
 
 (* what a lookup returns, for EVERY list of lines: the last line carrying that name *)
 Theorem C12_lookup_is_last_occurrence : forall (ls : list string) (k : string),
@@ -23,7 +31,7 @@ Print Assumptions C12_permutation.
 (* with duplicates: any rearrangement (insertion, deletion, reordering of other lines) that leaves the
    occurrences of name k in their own relative order leaves the lookup of k unchanged *)
 Theorem C12_reorder_with_duplicates : forall (ls ls' : list string) (k : string),
-  filter (fun e => String.eqb k (e_name e)) (parse_lines ls) = filter (fun e => String.eqb k (e_name e)) (parse_lines ls') ->
+  filter (fun e => US.eqb k (e_name e)) (parse_lines ls) = filter (fun e => US.eqb k (e_name e)) (parse_lines ls') ->
   dict_get k (read_lines ls) = dict_get k (read_lines ls').
 Proof. exact reorder_with_duplicates. Qed.
 Print Assumptions C12_reorder_with_duplicates.
@@ -46,12 +54,12 @@ Print Assumptions C12_block_order.
 (* blank lines, lines without a comma and comment lines (#, --, * after optional indentation) are ignored *)
 Theorem C12_comment_blank : forall (l1 l2 : list string) (c : string),
   (allws c = true \/ nocomma c = true \/
-   exists p m x, allws p = true /\ (m = "#" \/ m = "--" \/ m = "*") /\ c = p ++ m ++ x) ->
+   exists p m x, allws p = true /\ (m = [HASH] \/ m = [DASH; DASH] \/ m = [STAR]) /\ c = (p ++ m ++ x)%list) ->
   read_lines (l1 ++ c :: l2)%list = read_lines (l1 ++ l2)%list.
 Proof. exact ignored_kinds. Qed.
 Print Assumptions C12_comment_blank.
 
-(* whitespace around name and value (any of the 12 whitespace code points below 256, any amount) *)
+(* whitespace around name and value: any amount of any of the 29 code points str.strip() removes (U+00A0, U+2003, U+3000 ...) *)
 Theorem C12_whitespace : forall p1 p2 p3 p4 d v : string,
   allws p1 = true -> allws p2 = true -> allws p3 = true -> allws p4 = true ->
   nocomma d = true -> nocomma v = true ->
@@ -76,7 +84,7 @@ Print Assumptions C12_decorated_line.
 
 (* and the undecorated line reads as written (so the statements above are not about None = None) *)
 Theorem C12_clean_line : forall d v : string,
-  nocomma d = true -> nocomma v = true -> is_comment (lstrip d) = false -> lstrip d <> "" ->
+  nocomma d = true -> nocomma v = true -> is_comment (lstrip d) = false -> lstrip d <> [] ->
   name_val (parse_line (d ++ String COMMA v)) = Some (strip d, strip v).
 Proof. exact clean_line. Qed.
 Print Assumptions C12_clean_line.
@@ -111,7 +119,7 @@ Print Assumptions C12_client_override_value.
    corpus/C12/client_no_final_newline.json: a regression of the fix is reported with this replay. *)
 Theorem C12_client_override_pinned_refuted : exists (base : string) (params : list (string * string)) (k v : string),
   In (k, v) params /\ clean_param (k, v) = true /\ dict_get k (read_text (client_text_pinned base params)) = None
-  /\ option_map e_sval (dict_get "A" (read_text (client_text_pinned base params))) = Some "1B".
+  /\ option_map e_sval (dict_get $"A" (read_text (client_text_pinned base params))) = Some $"1B".
 Proof. exact client_override_counterexample. Qed.
 Print Assumptions C12_client_override_pinned_refuted.
 
@@ -129,55 +137,85 @@ Theorem C12_uses_cover :
 Proof. exact uses_cover. Qed.
 Print Assumptions C12_uses_cover.
 
+(* the whitespace of the model is EXACTLY the 29 code points str.isspace() accepts (the list is compared with the
+   running interpreter's table on every check) *)
+Theorem C12_whitespace_table : forall c : N, is_ws c = true <-> In c ws_points.
+Proof. exact is_ws_table. Qed.
+Print Assumptions C12_whitespace_table.
+
+(* the file is BYTES: every text a Python str can hold (any Unicode scalar values), UTF-8 encoded, is read exactly as
+   the tokenizer reads that text - so all statements above about read_text / read_lines are statements about files *)
+Theorem C12_utf8_file : forall t : string,
+  forallb scalar t = true -> read_file (utf8_encode t) = ReadOk (read_text t).
+Proof. exact read_file_encoded. Qed.
+Print Assumptions C12_utf8_file.
+
+(* decoding is strict and total failure: a byte that cannot start a character (a stray continuation byte 0x80-0xBF,
+   0xC0, 0xC1, 0xF5-0xFF) ANYWHERE after a well-formed prefix makes the whole file unreadable (UnicodeDecodeError) -
+   it is never skipped, replaced or read as latin-1 *)
+Theorem C12_decode_error : forall (t : string) (b : N) (rest : list N),
+  forallb scalar t = true -> (128 <=? b) && (b <=? 193) || (245 <=? b) = true ->
+  read_file (utf8_encode t ++ b :: rest) = DecodeError.
+Proof. exact decode_error_anywhere. Qed.
+Print Assumptions C12_decode_error.
+
 (* non-vacuity *)
+Example C12_example_utf8 :
+  utf8_encode [65; 160; 8195; 12288; 128512] = [65; 194; 160; 226; 128; 131; 227; 128; 128; 240; 159; 152; 128]
+  /\ forallb scalar [65; 160; 8195; 12288; 128512] = true
+  /\ map is_ws [160; 8195; 12288; 5760; 8239; 65279; 8203] = [true; true; true; true; true; false; false]
+  /\ read_file ($"A, 1" ++ [160; 10]) = DecodeError            (* a latin-1 NBSP byte is not UTF-8 *)
+  /\ read_file [237; 160; 128] = DecodeError /\ read_file [192; 128] = DecodeError /\ read_file [226; 128] = DecodeError.
+Proof. vm_compute. repeat split; reflexivity. Qed.
+
 Example C12_example_file :
   map (fun p => (fst p, e_sval (snd p)))
-      (read_text ("Reservoir Depth, 3, -- km" ++ String CR (String LF ("# c" ++ String LF ("" ++ String LF
-                  ("  Gradient 1 ,  50  " ++ String CR ("* x,1" ++ String LF "Reservoir Depth,4")))))))
-  = [("Reservoir Depth", "4"); ("Gradient 1", "50")].
+      (read_text ($"Reservoir Depth, 3, -- km" ++ [CR; LF] ++ $"# c" ++ [LF] ++ [LF] ++ [8195] ++ $" Gradient 1" ++ [160] ++ $",  50 " ++ [12288]
+                  ++ [CR] ++ $"* x,1" ++ [LF] ++ $"Reservoir Depth,4"))
+  = [($"Reservoir Depth", $"4"); ($"Gradient 1", $"50")].
 Proof. vm_compute. reflexivity. Qed.
 
 Example C12_example_permutation :
-  let ls := ["A, 1"; "B, 2"; "C, 3"] in
-  Permutation ls ["C, 3"; "A, 1"; "B, 2"] /\ NoDup (map e_name (parse_lines ls)).
+  let ls := [$"A, 1"; $"B, 2"; $"C, 3"] in
+  Permutation ls [$"C, 3"; $"A, 1"; $"B, 2"] /\ NoDup (map e_name (parse_lines ls)).
 Proof.
   split.
-  - apply Permutation_sym. change ["C, 3"; "A, 1"; "B, 2"] with (["C, 3"] ++ ["A, 1"; "B, 2"])%list.
-    change ["A, 1"; "B, 2"; "C, 3"] with (["A, 1"; "B, 2"] ++ ["C, 3"])%list. apply Permutation_app_comm.
+  - apply Permutation_sym. change [$"C, 3"; $"A, 1"; $"B, 2"] with ([$"C, 3"] ++ [$"A, 1"; $"B, 2"]).
+    change [$"A, 1"; $"B, 2"; $"C, 3"] with ([$"A, 1"; $"B, 2"] ++ [$"C, 3"]). apply Permutation_app_comm.
   - vm_compute. repeat constructor; cbn; intuition discriminate.
 Qed.
 
 Example C12_example_decorated :
-  name_val (parse_line ("  " ++ "Gradient 1" ++ " " ++ String COMMA (" " ++ "50" ++ "  " ++ String COMMA " -- degC/km, really")))
-  = Some ("Gradient 1", "50")
-  /\ allws "  " = true /\ nocomma "Gradient 1" = true /\ is_comment (lstrip "Gradient 1") = false.
+  name_val (parse_line ([8195; 160] ++ $"Gradient 1" ++ [12288] ++ String COMMA ($" " ++ $"50" ++ [8201; 32] ++ String COMMA $" -- degC/km, really")))
+  = Some ($"Gradient 1", $"50")
+  /\ allws [8195; 160] = true /\ allws [8201; 32] = true /\ nocomma $"Gradient 1" = true /\ is_comment (lstrip $"Gradient 1") = false.
 Proof. vm_compute. repeat split. Qed.
 
 Example C12_example_duplicates :
-  let ls := ["A, 1"; "B, 2"; "A, 3"] in let ls' := ["B, 2"; "A, 1"; "# x"; "A, 3"] in
-  filter (fun e => String.eqb "A" (e_name e)) (parse_lines ls) = filter (fun e => String.eqb "A" (e_name e)) (parse_lines ls')
-  /\ option_map e_sval (dict_get "A" (read_lines ls)) = Some "3".
-Proof. vm_compute. repeat split; reflexivity. Qed.
+  let ls := [$"A, 1"; $"B, 2"; $"A, 3"] in let ls' := [$"B, 2"; $"A, 1"; $"# x"; $"A, 3"] in
+  filter (fun e => US.eqb $"A" (e_name e)) (parse_lines ls) = filter (fun e => US.eqb $"A" (e_name e)) (parse_lines ls')
+  /\ option_map e_sval (dict_get $"A" (read_lines ls)) = Some $"3".
+Proof. vm_compute. split; reflexivity. Qed.
 
 Example C12_example_block :
-  let p := String.prefix "AddOn" in
-  let ls := ["AddOn CAPEX 1, 5"; "X, 1"; "AddOn CAPEX 2, 7"] in let ls' := ["AddOn CAPEX 1, 5"; "AddOn CAPEX 2, 7"; "X, 1"] in
+  let p := fun k : string => US.eqb (firstn 5 k) $"AddOn" in
+  let ls := [$"AddOn CAPEX 1, 5"; $"X, 1"; $"AddOn CAPEX 2, 7"] in let ls' := [$"AddOn CAPEX 1, 5"; $"AddOn CAPEX 2, 7"; $"X, 1"] in
   filter p (map e_name (parse_lines ls)) = filter p (map e_name (parse_lines ls'))
-  /\ filter p (keys (read_lines ls')) = ["AddOn CAPEX 1"; "AddOn CAPEX 2"].
-Proof. vm_compute. repeat split; reflexivity. Qed.
+  /\ filter p (keys (read_lines ls')) = [$"AddOn CAPEX 1"; $"AddOn CAPEX 2"].
+Proof. vm_compute. split; reflexivity. Qed.
 
 Example C12_example_crlf :
-  Forall (fun l => noeol l = true) ["A, 1"; "B, 2"] /\ noeol "C, 3" = true
-  /\ dump (read_text (join_lines EolCR ["A, 1"; "B, 2"] ++ "C, 3")) = dump (read_text (join_lines EolCRLF ["A, 1"; "B, 2"; "C, 3"])).
+  Forall (fun l => noeol l = true) [$"A, 1"; $"B, 2"] /\ noeol $"C, 3" = true
+  /\ dump (read_text (join_lines EolCR [$"A, 1"; $"B, 2"] ++ $"C, 3")) = dump (read_text (join_lines EolCRLF [$"A, 1"; $"B, 2"; $"C, 3"])).
 Proof. split; [repeat constructor|]. split; vm_compute; reflexivity. Qed.
 
 Example C12_example_client_params :
-  let ps := [("Gradient 1", "60"); ("End-Use Option", "2")] in
+  let ps := [($"Gradient 1", $"60"); ($"End-Use Option", $"2")] in
   Forall (fun p => clean_param p = true) ps /\ NoDup (map fst ps).
 Proof. split; [repeat constructor | repeat constructor; cbn; intuition discriminate]. Qed.
 
 Example C12_example_client :
-  option_map e_sval (dict_get "Gradient 1" (read_text (client_text ("Gradient 1, 50" ++ String CR "") [("Gradient 1", "60")]))) = Some "60"
-  /\ option_map e_sval (dict_get "Gradient 1" (read_text (client_text "Gradient 1, 50" [("Gradient 1", "60")]))) = Some "60"
-  /\ option_map e_sval (dict_get "Gradient 1" (read_text (client_text_pinned "Gradient 1, 50" [("Gradient 1", "60")]))) = Some "50Gradient 1".
+  option_map e_sval (dict_get $"Gradient 1" (read_text (client_text ($"Gradient 1, 50" ++ [CR]) [($"Gradient 1", $"60")]))) = Some $"60"
+  /\ option_map e_sval (dict_get $"Gradient 1" (read_text (client_text $"Gradient 1, 50" [($"Gradient 1", $"60")]))) = Some $"60"
+  /\ option_map e_sval (dict_get $"Gradient 1" (read_text (client_text_pinned $"Gradient 1, 50" [($"Gradient 1", $"60")]))) = Some $"50Gradient 1".
 Proof. vm_compute. repeat split; reflexivity. Qed.
